@@ -782,7 +782,7 @@ func runC18(a runArgs) error {
 	e := NewEmitter("C18", "Monitor.Run")
 	e.ShardSize = 120
 	e.Preamble = "From GoCoap Require Import Monitor.Model."
-	e.Rule = "event histories (message received / pong for generation g / tick at virtual time t, spacings at the period -200ms,-1ns,0,+1ns,+200ms, several ticks per period, retry limits 0-3) applied to the real inactivity.Monitor / KeepAlive (component drivers mon, conns, ka, kaconns), to a udp client Conn over an in-memory session (udp, udpconns), to a tcp client Conn over a pipe (tcp) and to the udp server (srv: handleInactivityMonitors + datagram path getConn), all wired by options.WithInactivityMonitor / WithKeepAlive; distinct = distinct history; non-trivial = the monitor acted at least once (ping or close) and at least one message or pong was received"
+	e.Rule = "event histories (message received / pong for generation g / tick at virtual time t, spacings at the period -200ms,-1ns,0,+1ns,+200ms, several ticks per period, retry limits 0-3) applied to the real inactivity.Monitor / KeepAlive (component drivers mon, conns, ka, kaconns), to a udp client Conn over an in-memory session (udp, udpconns), to a tcp client Conn over a pipe (tcp) and to the udp server (srv: handleInactivityMonitors + datagram path getConn), all wired by options.WithInactivityMonitor / WithKeepAlive; plus byte-level histories on a tcp client Conn over a scripted socket (tcps: 1-4 messages encoded by the real tcp coder, handed over in reads cut inside the header / one byte before the end of a frame / across frame ends / byte by byte, ticks around the expiry of the latest COMPLETE message and right after fragments); distinct = distinct history; non-trivial = the monitor acted at least once (ping or close) and at least one message or pong was received (tcps: and at least one read completed no message)"
 	if a.only != "" {
 		f := strings.Fields(a.only)
 		switch f[0] {
@@ -795,6 +795,13 @@ func runC18(a runArgs) error {
 				return err
 			}
 			if err := c18Emit(e, h); err != nil {
+				return err
+			}
+		case "shist":
+			if c18SOnly == nil {
+				return fmt.Errorf("family tcps is not built in")
+			}
+			if err := c18SOnly(e, f); err != nil {
 				return err
 			}
 		case "period":
@@ -839,6 +846,12 @@ func runC18(a runArgs) error {
 			}
 		}
 	}
+	// byte-level histories on a stream connection (c18_stream.go)
+	if c18SRun != nil {
+		if err := c18SRun(e, rng, scale); err != nil {
+			return err
+		}
+	}
 	for _, m := range []uint32{0, 1, 2, 3, 6, 9, 4294967294, 4294967295} {
 		for _, t := range []int64{0, 1, 999999999, 4 * c18Sec, 10 * c18Sec, -3 * c18Sec} {
 			c18PeriodCase(e, t, m)
@@ -854,6 +867,12 @@ type c18Plan struct {
 }
 
 var c18ExtraPlanList []c18Plan
+
+// family tcps (byte-level histories on a stream connection), set by c18_stream.go
+var (
+	c18SRun  func(e *Emitter, rng *Rng, scale int) error
+	c18SOnly func(e *Emitter, f []string) error
+)
 
 // histories kept from development; the first is the F12 witness of DESIGN.md
 var c18Corpus = []string{
